@@ -104,7 +104,8 @@ def spec_c17(case, trace):
         kv = dict(x.split("=") for x in res.split())
         moved, peer, done = int(kv["moved"]), int(kv["peer"]), kv["done"] == "1"
         if kv["ok"] != "1":
-            return "after `%s` the bytes that arrived are not the bytes that were written, in order" % op
+            return ("after `%s` the bytes that arrived are not the bytes that were written, in order — or an operation on the adapter "
+                    "returned an I/O error" % op)
         if mode == "read":
             if moved > peer:
                 return "after `%s` the task has read %d bytes, the peer wrote only %d" % (op, moved, peer)
